@@ -312,7 +312,12 @@ def build_tolerancing(o, setup, samplers=True, override_samplers=None):
     if samplers:
         for i, p in enumerate(setup['perturbations']):
             sd = override_samplers[i] if override_samplers else p['sampler']
-            tol.add_perturbation(p['type'], make_sampler(sd), **var_kwargs(p))
+            lim = {}
+            if p.get('limits'):
+                # documented keyword arguments of the variable: limits are for optimisers; a perturbation must apply
+                # the sampled value whether or not it lies inside them
+                lim = {'min_val': p['limits'][0], 'max_val': p['limits'][1]}
+            tol.add_perturbation(p['type'], make_sampler(sd), **var_kwargs(p), **lim)
     for c in setup['compensators']:
         tol.add_compensator(c['type'], **var_kwargs(c))
     return tol
@@ -571,6 +576,9 @@ def gen_setup(rng, idx, tier):
                 nanr = math.copysign(max(semi * 0.3, 0.2), nom)
             p = dict(c)
             p['sampler'] = gen_sampler(rng, c, nom, kinds, nan_radius=nanr)
+            if rng.random() < 0.2 and math.isfinite(nom):
+                w = 1e-3 * max(1.0, abs(nom)) * rng.choice([0.01, 0.1, 1.0])
+                p['limits'] = [nom - w, nom + w]          # much narrower than what the sampler delivers
             perts.append(p)
         if flavour == 'nan' and not any(p['type'] == 'radius' for p in perts):
             # a decentre far outside the beam makes rays miss the next surfaces as well
@@ -888,12 +896,21 @@ def only_index_dispersion(setup, diffs, N, o):
     ks = set(p['kw']['surface_number'] for p in setup['perturbations'] + setup['compensators'] if p['type'] == 'index')
     if not ks or not diffs:
         return False
+    ps = bool(setup['lens'].get('pickups') or setup['lens'].get('solves'))
     for d in diffs:
         if d[0] == 'pattern':
             continue
-        if d[0] not in ('n', 'n_all', 'k_all') or d[1] not in ks:
-            return False
+        if d[0] in ('n', 'n_all', 'k_all') and d[1] in ks:
+            continue
+        if ps and d[0] in ('z', 'radius', 'conic', 'thickness'):
+            continue      # pickups / solves re-applied by reset() on the idealised medium (checked exactly below)
+        return False
     f = idealised_index_lens(setup, N)
+    if f is not None and ps:
+        try:
+            f.update()        # what Tolerancing.reset() does after putting the variables back
+        except Exception:  # noqa
+            return False
     return f is not None and not [d for d in snap_diff(xsnap(f), xsnap(o)) if d[0] != 'pattern']
 
 
@@ -1132,6 +1149,8 @@ def check_setup(ctx, setup, lines, keep):
                 f = idealised_index_lens(setup, N)
                 for c, v in zip(s2['compensators'], row['comp']):
                     write_value(f, c, unscale(c, v))
+                if has_ps:
+                    f.update()      # the optimiser / reset re-apply pickups and solves on the idealised medium
                 if ops_equal(row['ops'], evaluate_ops(f, setup), 1e-9):
                     key = 'index-reset-drops-dispersion'
             ctx.fail('perturbation value = nominal value reproduces the nominal operand values (row %d)' % ri,
